@@ -1535,7 +1535,7 @@ def pred_imputed(tc, spy, X, mask):
     if mask is None or tc["n_iter_max"] == 0 or spy.proj_in is None:
         return None
     if spy.proj_rec is None:
-        return "a masked sweep projected a tensor although no reconstruction was computed before it", "C08_hooi_imputed_tensor"
+        return None            # the reconstruction did not go through multi_mode_dot (refactored imputation): not observable, never a verdict
     if not np.all(np.isfinite(spy.proj_rec)):
         return None
     want = np.where(mask != 0, X, spy.proj_rec)
